@@ -1,4 +1,6 @@
-"""Xtensa LX interpreter (call0 and windowed ABI prologue/epilogue) for the subset emitted by tools/genxtensa."""
+"""Xtensa LX interpreter (call0 and windowed ABI prologue/epilogue): the subset emitted by tools/genxtensa plus the rest of the core
+integer ISA a rewrite could use (all compare-and-branch forms, shifts through SAR and immediate shifts, narrow loads/stores,
+extui, neg/abs, addx/subx, conditional moves).  Anything else is Unsupported (inconclusive), never guessed."""
 import re
 from emucore import Memory, Unsupported, Violation, parse_int, STATE_BASE, STACK_TOP, STACK_SIZE, RET_SENTINEL
 
@@ -44,6 +46,47 @@ class Xtensa:
                 x, y = a[self.reg(ops[1])], a[self.reg(ops[2])]
                 v = x ^ y if mn == 'xor' else x & y if mn == 'and' else x | y if mn == 'or' else x + y if mn == 'add' else x - y
                 a[self.reg(ops[0])] = v & M
+            elif mn in ('addx2', 'addx4', 'addx8', 'subx2', 'subx4', 'subx8'):
+                x, y = a[self.reg(ops[1])], a[self.reg(ops[2])]
+                k = int(mn[-1])
+                a[self.reg(ops[0])] = ((x * k) + y if mn.startswith('add') else (x * k) - y) & M
+            elif mn in ('neg', 'abs'):
+                y = a[self.reg(ops[1])]
+                sy = y - (1 << 32) if y >> 31 else y
+                a[self.reg(ops[0])] = (-sy if mn == 'neg' else abs(sy)) & M
+            elif mn in ('slli', 'srli', 'srai'):
+                x, sh = a[self.reg(ops[1])], parse_int(ops[2])
+                if not (1 <= sh <= 31 if mn == 'slli' else 0 <= sh <= (15 if mn == 'srli' else 31)):
+                    raise Violation('encoding', 'shift amount %d not encodable in: %s' % (sh, src))
+                sx_ = x - (1 << 32) if x >> 31 else x
+                a[self.reg(ops[0])] = ((x << sh) if mn == 'slli' else (x >> sh) if mn == 'srli' else (sx_ >> sh)) & M
+            elif mn in ('ssl', 'ssr'):
+                v = a[self.reg(ops[0])] & 31
+                sar = (32 - v) if mn == 'ssl' else v
+            elif mn in ('ssa8l', 'ssa8b'):
+                v = (a[self.reg(ops[0])] & 3) * 8
+                sar = v if mn == 'ssa8l' else 32 - v
+            elif mn in ('sll', 'srl', 'sra'):
+                x = a[self.reg(ops[1])]
+                if mn == 'sll':
+                    a[self.reg(ops[0])] = (x << (32 - sar)) & M if sar <= 32 else 0
+                elif mn == 'srl':
+                    a[self.reg(ops[0])] = (x >> sar) & M if sar < 32 else 0
+                else:
+                    sx_ = x - (1 << 32) if x >> 31 else x
+                    a[self.reg(ops[0])] = (sx_ >> min(sar, 31)) & M
+            elif mn == 'extui':
+                x, sh, w = a[self.reg(ops[1])], parse_int(ops[2]), parse_int(ops[3])
+                if not (0 <= sh <= 31 and 1 <= w <= 16):
+                    raise Violation('encoding', 'extui operands not encodable in: %s' % src)
+                a[self.reg(ops[0])] = (x >> sh) & ((1 << w) - 1)
+            elif mn in ('moveqz', 'movnez', 'movltz', 'movgez'):
+                t = a[self.reg(ops[2])]
+                st = t - (1 << 32) if t >> 31 else t
+                if {'moveqz': st == 0, 'movnez': st != 0, 'movltz': st < 0, 'movgez': st >= 0}[mn]:
+                    a[self.reg(ops[0])] = a[self.reg(ops[1])]
+            elif mn in ('nop', 'nop.n', '_nop'):
+                pass
             elif mn == 'src':
                 hi, lo = a[self.reg(ops[1])], a[self.reg(ops[2])]
                 a[self.reg(ops[0])] = (((hi << 32) | lo) >> sar) & M
@@ -61,18 +104,22 @@ class Xtensa:
                 a[self.reg(ops[0])] = a[self.reg(ops[1])]
             elif mn in ('addi', 'addi.n'):
                 a[self.reg(ops[0])] = (a[self.reg(ops[1])] + parse_int(ops[2])) & M
-            elif mn in ('l32i', 'l32i.n', 's32i', 's32i.n'):
+            elif mn in ('l32i', 'l32i.n', 's32i', 's32i.n', 'l8ui', 's8i', 'l16ui', 'l16si', 's16i'):
+                size = 4 if '32' in mn else 2 if '16' in mn else 1
                 addr = (a[self.reg(ops[1])] + parse_int(ops[2])) & M
-                if addr % 4:
+                if addr % size:
                     raise Violation('misaligned-access', '%s at 0x%x' % (src, addr))
                 if STACK_TOP - STACK_SIZE <= addr < a[1]:
                     raise Violation('access-below-stack-pointer', '%s touches 0x%x while sp = 0x%x' % (src, addr, a[1]))
                 if mn.startswith('l'):
-                    a[self.reg(ops[0])] = mem.load(addr, 4, src)
+                    v = mem.load(addr, size, src)
+                    if mn == 'l16si' and v >> 15:
+                        v |= 0xffff0000
+                    a[self.reg(ops[0])] = v
                 else:
                     if STACK_TOP <= addr < STACK_TOP + 0x1000:
                         raise Violation('write-outside-allowed-memory', '%s stores above the entry stack pointer (caller frame)' % src)
-                    mem.store(addr, 4, a[self.reg(ops[0])], src)
+                    mem.store(addr, size, a[self.reg(ops[0])] & ((1 << (8 * size)) - 1), src)
             elif mn in ('beqi', 'bnei', 'beq', 'bne', 'beqz', 'bnez', 'beqz.n', 'bnez.n'):
                 x = a[self.reg(ops[0])]
                 if mn in ('beqi', 'bnei'):
@@ -86,6 +133,34 @@ class Xtensa:
                     y = 0
                 eq = x == y
                 take = eq if mn.startswith('beq') else not eq
+                tgt = ops[-1]
+                if tgt not in prog.labels:
+                    raise Unsupported('branch target %r' % tgt)
+                if take:
+                    npc = prog.labels[tgt]
+            elif mn in ('blt', 'bge', 'bltu', 'bgeu', 'blti', 'bgei', 'bltui', 'bgeui', 'bltz', 'bgez', 'bany', 'bnone', 'ball', 'bnall', 'bbci', 'bbsi', 'bbc', 'bbs'):
+                x = a[self.reg(ops[0])]
+                sx_ = x - (1 << 32) if x >> 31 else x
+                if mn in ('bltz', 'bgez'):
+                    take = sx_ < 0 if mn == 'bltz' else sx_ >= 0
+                elif mn in ('blti', 'bgei', 'bltui', 'bgeui'):
+                    imm = parse_int(ops[1])
+                    ok = (-1, 1, 2, 3, 4, 5, 6, 7, 8, 10, 12, 16, 32, 64, 128, 256) if mn in ('blti', 'bgei') else (32768, 65536, 2, 3, 4, 5, 6, 7, 8, 10, 12, 16, 32, 64, 128, 256)
+                    if imm not in ok:
+                        raise Violation('encoding', 'branch constant %d not encodable in: %s' % (imm, src))
+                    take = {'blti': sx_ < imm, 'bgei': sx_ >= imm, 'bltui': x < imm, 'bgeui': x >= imm}[mn]
+                elif mn in ('bbci', 'bbsi'):
+                    bit = (x >> parse_int(ops[1])) & 1          # little-endian bit numbering (all supported cores are LE)
+                    take = bit == (1 if mn == 'bbsi' else 0)
+                else:
+                    y = a[self.reg(ops[1])]
+                    sy = y - (1 << 32) if y >> 31 else y
+                    if mn in ('bbc', 'bbs'):
+                        bit = (x >> (y & 31)) & 1
+                        take = bit == (1 if mn == 'bbs' else 0)
+                    else:
+                        take = {'blt': sx_ < sy, 'bge': sx_ >= sy, 'bltu': x < y, 'bgeu': x >= y, 'bany': (x & y) != 0, 'bnone': (x & y) == 0,
+                                'ball': (~x & y & M) == 0, 'bnall': (~x & y & M) != 0}[mn]
                 tgt = ops[-1]
                 if tgt not in prog.labels:
                     raise Unsupported('branch target %r' % tgt)
